@@ -72,7 +72,9 @@ func HashName(field string) string {
 func RemoveElementAfter(slice []string, marker string) []string {
 	for i, v := range slice {
 		if v == marker && i+1 < len(slice) {
-			return append(slice[:i+1], slice[i+2:]...)
+			result := make([]string, 0, len(slice)-1)
+			result = append(result, slice[:i+1]...)
+			return append(result, slice[i+2:]...)
 		}
 	}
 	return slice
